@@ -221,7 +221,7 @@ _P_MORE = {
     "C07": "PROVED: validate_interval raises gfapy errors only; the Field_* contracts hold for every string. ",
     "C08": "PROVED: Multiplication.multiply checks requested copy names (count, names carried by or referred to by a line, repeats) before anything is changed, and raises nothing afterwards; FieldArray._vpush / Multiline.add refuse a contradicting header value before writing; the tag loops of SameID write nothing before the check has passed. PROVED (part 7): Creators._register_line notes a virtual line in the log of the connect in progress iff one is open; Connection._validate_no_reference_to_own_name writes nothing. ",
     "C09": "PROVED: Finders._search_duplicate finds the line an arriving line collides with by record type and identifier; the instance replaced by a later line is detached, so that renaming it cannot touch the registry; the names computed for copies are fresh (ComputeCopyNames). PROVED (part 7): Connection._validate_no_reference_to_own_name refuses a line iff one of its reference fields mentions its own identifier - text, line or oriented reference, single or in a list (two loop invariants, all numbers of fields and items); Creators._register_line / Destructors._unregister_line keep the registry keyed by identifier and move the counter of integer names to max(counter, n) exactly for ASCII digit names of at most 1000 characters. ",
-    "C12": "PROVED: Link.is_compatible / _direct / _complement; Finders._search_duplicate hands a link to the link search. ",
+    "C12": "PROVED: Link.is_compatible / _direct / _complement; Finders._search_duplicate hands a link to the link search; Finders._search_link returns the first dovetail of the from-segment that is a link compatible with the request in either form, None iff there is none or the segment is unknown (loop invariant with early exit). ",
     "C13": "PROVED: Segment._subclass: GFA1 syntax iff two fields precede the maximal run of tag-looking fields, GFA2 iff three, FormatError otherwise (descending loop, all numbers of fields), and its tag test accepts the tags of every datatype A i f Z J H B; __add_line_GFA1 / __add_line_GFA2 merge a header only if it names no version or their own (any other VN, also one beginning like it, is refused before anything is kept), refuse a segment written in the other syntax, and connect every other record once. PROVED (part 7): in a Gfa of the rGFA dialect a line that would fix the version gfa2 (GFA2 segment, E F G U O, VN 2.0) is refused with VersionError at every level before anything is kept (AddLineUnknownVersion); process_line_queue sets the version to the guess before the first queued line is added and hands every queued line to add_line exactly once, in order, then empties the queue (loop invariant, every queue length). ",
     "C14": "PROVED: Link.is_compatible / _direct / _complement (the link a path step asks for is found whatever side leaves the overlap unspecified). ",
     "C15": "PROVED: Multiplication.multiply as orchestrator, for every factor, list of copy names and distribution setting: factor < 0 refused, 0 = one removal, 1 = nothing, k >= 2 = one division of the counts by k, k-1 clones named by the requested (checked) or computed names in order, one distribution iff a policy is given (two loop invariants; callees as ghost events, see assumptions); __divide_counts sets each of KC/RC/FC that the line carries once to value div factor; __divide_segment_and_connection_counts divides the counts of the segment once and of every edge exactly once (an edge of the segment with itself is listed twice); __clone_segment_and_connections makes one connected copy of the segment and exactly one connected clone per edge, in which every end that was the segment is the copy, a named edge carries a fresh name and the originals are untouched; _compute_copy_names returns factor-1 pairwise distinct names none of which is carried or referred to by a line (for loop with an inner while loop). PROVED (part 7): Multiplication._distribute_links: member m of [original] + copies keeps on the distributed end exactly the links whose signature is among the signatures m .. m+max(n-k,0) of the original's links (clamped slice), every other connected link of that end is disconnected once, nothing else is touched (two loop invariants with quantified frame, all numbers of copies and links; assumed: the links on that end of different members are different lines); with the window-cover lemma no former neighbour loses all its links. ",
